@@ -71,6 +71,9 @@ func buildFromDefinition(def *configDefinition, lc *loaderContext) (cfg *Config,
 	cfg = NewConfig()
 
 	for k, v := range def.Contexts {
+		if v == nil {
+			v = &contextDefinition{} // "name:" with an empty body
+		}
 		cfg.Contexts[k], err = buildContext(v)
 		if err != nil {
 			return nil, err
@@ -78,16 +81,22 @@ func buildFromDefinition(def *configDefinition, lc *loaderContext) (cfg *Config,
 	}
 
 	for k, v := range def.Tasks {
-		cfg.Tasks[k], err = buildTask(v, lc)
-		if cfg.Tasks[k].Name == "" {
-			cfg.Tasks[k].Name = k
+		if v == nil {
+			v = &taskDefinition{} // "name:" with an empty body
 		}
+		cfg.Tasks[k], err = buildTask(v, lc)
 		if err != nil {
 			return nil, err
+		}
+		if cfg.Tasks[k].Name == "" {
+			cfg.Tasks[k].Name = k
 		}
 	}
 
 	for k, v := range def.Watchers {
+		if v == nil {
+			v = &watcherDefinition{} // "name:" with an empty body
+		}
 		t := cfg.Tasks[v.Task]
 		if t == nil {
 			return nil, fmt.Errorf("no such task %s", v.Task)
